@@ -209,6 +209,7 @@ struct Bfs {
     if (!parse_hist(hs, h)) { out.push_back(std::make_pair("replay-parse", "cannot parse history")); return out; }
     Ctx ctx(rep, sys.name(), hs); bool en = true; int a0 = asan_errors();
     std::unique_ptr<State> s = replay(h, &ctx, &en);
+    (void)sys.canon(*s);   // mirror the exploration: canon is evaluated before the oracle
     safe_check(sys, *s, ctx);
     if (asan_errors() != a0) ctx.fail("asan", "AddressSanitizer report during replay");
     return ctx.fails;
